@@ -338,8 +338,55 @@ def rule_E_shell(ctx, rid='E'):
                'log shell_n_eff = %s: (sum L)^2 / sum L^2' % fmt(fm) if ok else
                'log shell_n_eff = %s, not 2 lS1 - lS2: not the Kish effective sample size of '
                'the shell\'s likelihoods' % fmt(fm))
+    if 'shell_n_eff' in forms:
+        n += _kish_guard(ctx, rid, f, forms['shell_n_eff'][1])
     n += _consumers(ctx, rid, {k: v[0] for k, v in forms.items()})
     return n
+
+
+def _kish_guard(ctx, rid, f, node):
+    """The Kish formula is 0/0 only when EVERY likelihood of the shell is zero; it is the right
+    value as soon as one is not.  So the formula is applied under "not all log_l are -inf"
+    (some finite value exists) - `np.all(log_l > -inf)` instead sends a shell with a single
+    zero-likelihood point to the fallback (n_eff = number of points)."""
+    from .cfg import cfg_of
+    cfg = cfg_of(f)
+    if not cfg.has(node):
+        return 0
+    guards = [(cfg.nodes[t].expr, lab) for t, lab in cfg.strict_guards(cfg.node_of(node).id)
+              if cfg.nodes[t].expr is not None and 'inf' in unparse(cfg.nodes[t].expr)]
+    if not guards:
+        ctx.ob(rid, 'Sampler.update_shell_info:kish-guard', False, f.where(node),
+               'the Kish formula is applied without excluding the all-zero-likelihood shell '
+               '(0/0 -> NaN)')
+        return 1
+    e, lab = guards[-1]
+    neg = not lab
+    while isinstance(e, ast.UnaryOp) and isinstance(e.op, ast.Not):
+        neg, e = not neg, e.operand
+    verdict = None      # True: "some likelihood is non-zero"; False: something else
+    if isinstance(e, ast.Call) and dotted(e.func) in ('np.all', 'np.any', 'all', 'any') and e.args:
+        q = dotted(e.func).split('.')[-1]
+        c = e.args[0]
+        if isinstance(c, ast.Compare) and len(c.ops) == 1 and 'inf' in unparse(c.comparators[0]):
+            is_eq = isinstance(c.ops[0], ast.Eq)
+            is_ne = isinstance(c.ops[0], (ast.NotEq, ast.Gt))
+            # not all(x == -inf)  |  any(x != -inf) / any(x > -inf)
+            if q == 'all' and is_eq and neg:
+                verdict = True
+            elif q == 'any' and is_ne and not neg:
+                verdict = True
+            elif q in ('all', 'any'):
+                verdict = False
+        elif isinstance(c, ast.Call) and dotted(c.func) in ('np.isfinite',):
+            verdict = (q == 'any' and not neg)
+    ctx.require(verdict is not None, 'E not decided: guard `%s` of the Kish formula' % unparse(e))
+    ctx.ob(rid, 'Sampler.update_shell_info:kish-guard', verdict, f.where(node),
+           'the Kish formula is used whenever some likelihood of the shell is non-zero' if verdict
+           else 'the Kish formula is used only under `%s%s`: a shell in which SOME points have '
+           'zero likelihood falls through to the all-zero fallback and reports the number of '
+           'points as its effective sample size' % ('not ' if neg else '', unparse(e)))
+    return 1
 
 
 # ---------------------------------------------------------------------------
